@@ -37,6 +37,13 @@ NEEDS = {
  "C11-1": "non-polygon features and two or more tile matrices (one wrapper reused: data race)",
  "C11-2": "an empty table (wg.Add moved into the goroutine)",
  "C11-3": "a target busy when the router has a feature for it (send moved to a helper goroutine)",
+ "C05-4": "a hole with no surrounding shell (promoted to a polygon of its own without being reversed)",
+ "C05-5": "a ring whose snapped version is [a b a] (closing vertex only stripped for rings longer than 3)",
+ "C05-6": "a polygon that partly collapses, KeepPointsAndLines off (the option is no longer consulted when collecting points and lines)",
+ "C05-7": "a polygon that collapses on one of several requested tile matrices (the result is filled by ranging over all requested levels: nil list instead of absent)",
+ "C06-4": "two or more tile matrices, an outer ring that collapses on the coarse level only and a further ring, KeepPointsAndLines off (segment loop ranges over the requested levels instead of the live level set)",
+ "C06-5": "level 32 (WebMercatorQuad id 20) and a vertex in the last pixel column or row (ToZ range check < instead of <=)",
+ "C06-6": "a spike near the end of a ring that snapping has filled with extra points (corpus sliced past the ring's length)",
  "C06-1": "a ring starting with a zig-zag whose forward matches outnumber the reverse ones by two or more (removal range computed from the wrong count: slice bounds out of range)",
  "C06-2": "a zig-zag directly followed by another step back (scan resumes on the last removed vertex: overlapping removal ranges)",
  "C06-3": "a zig-zag long enough for a second corpus expansion (corpus grows by 3 segments, its end marker by 2)",
